@@ -132,6 +132,7 @@ static void on_seam(const std::function<void()>& body) {
         task_yield(t, TS_SEAMREQ);
         t->seam_req = nullptr;
     } else body();
+    if (E.errno_noise) { static const int ev[4] = {EINTR, EAGAIN, ENOENT, ENOTTY}; errno = ev[(E.errno_seq++) & 3]; E.stats.add("fault_errno_left_set"); }
     if (t && t->preemptible) edge_tick(t);
 }
 
@@ -315,6 +316,7 @@ static size_t do_norm(int gen, bool compose, const char* str, char* norm) {
             return;
         }
         SeamEvent& e = new_event(rec, compose ? EV_NFC : EV_NFKD, gen);
+        if (E.norm_alias_unsafe && !E.in_inject) norm[0] = 0;      // like a wrapper that initialises its result first: input and output must not alias
         std::string in(str);
         if (E.norm_zero_on_invalid && !compose && rec->op.kind == OP_CRYPT) {
             bool valid = true; model::nfkd_raw(in, &valid);
@@ -577,6 +579,9 @@ long sim_fb_read(int, void*, size_t) { do_forbidden("read"); return -1; }
 size_t sim_fb_fread(void*, size_t, size_t, void*) { do_forbidden("fread"); return 0; }
 char* sim_fb_getenv(const char*) { do_forbidden("getenv"); return nullptr; }
 int sim_fb_getpid(void) { do_forbidden("getpid"); return 4; }
+int sim_sys_mlock(const void*, size_t) { if (E.syscall_faults) { E.stats.add("fault_mlock_fails"); errno = ENOMEM; return -1; } return 0; }
+int sim_sys_munlock(const void*, size_t) { return 0; }
+int sim_sys_madvise(void*, size_t, int) { if (E.syscall_faults) { errno = EINVAL; return -1; } return 0; }
 int sim_fb_timespec_get(struct timespec* ts, int b) { do_forbidden("timespec_get"); if (ts) { ts->tv_sec = 0; ts->tv_nsec = 0; } return b; }
 
 // memory/string functions called by the library: report the touched ranges to the access monitor
